@@ -30,6 +30,23 @@ func runC10(c *Ctx) {
 	c.Rule("R10.3", "blue-green refuses supersession: reset unreachable for blue-green, BadRequest swallowed without transition", 3)
 	c.Rule("R10.4", "restart from step one only after the reset reported done", 2)
 	c.Rule("R4.1", "rollback task sequences start with RouteTrafficToStable (K3)", 2)
+	c.Rule("R4.3b", "doProgressingReset (supersession): gateway restored before the BatchRelease is removed before the canary Service is removed, each after the previous stage's success", 4)
+	{
+		val := map[string]string{}
+		okc := true
+		for _, n := range []string{tResume, tRelease, tToStable, tRestore, tRemoveSvc, tToNew, tEnd, tWait} {
+			k := p.ConstObj("api/v1beta1", n)
+			if k == nil {
+				c.Unresolved("R4.3b", "constant v1beta1."+n)
+				okc = false
+				continue
+			}
+			val[n] = ConstVal(k)
+		}
+		if okc {
+			checkResetChain(c, "R4.3b", val)
+		}
+	}
 
 	checkDispatch(c, "R10.1", false)
 
